@@ -360,7 +360,9 @@ def composition_ok(A, B, R, tol=1e-9):
         return False, "result is not an affine map"
     err = max(np.max(np.abs(X - XR)), np.max(np.abs(Y - YR)), np.max(np.abs(d - dR)))
     scale = 1 + max(np.max(np.abs(X)), np.max(np.abs(Y)), np.max(np.abs(d)))
-    return (err <= tol * scale, "reference composition differs from the merged operation by %.3e" % err)
+    # (strongly squeezing operands: products of matrices with entries e^{r} lose relative accuracy in proportion to their
+    # condition number ~ scale^2, e.g. Sgate(2 pi) then Sgate(pi))
+    return (err <= tol * scale * max(1.0, scale), "reference composition differs from the merged operation by %.3e" % err)
 
 
 # ---- program generation ---------------------------------------------------------------------------
